@@ -135,7 +135,7 @@ func clip(s string) string {
 	return s
 }
 
-var kinds = []string{"none", "none", "task", "pipeline", "dep", "watcher", "dupname", "cycle1", "cycle2", "cycle3", "selfdep", "dep-other-pipeline", "dep-task-name", "dep-pipeline-name", "no-task-no-pipeline"}
+var kinds = []string{"none", "none", "task", "pipeline", "dep", "watcher", "dupname", "dupstage", "cycle1", "cycle2", "cycle3", "selfdep", "dep-other-pipeline", "dep-task-name", "dep-pipeline-name", "no-task-no-pipeline"}
 
 func genCase(rt *rapid.T) Case {
 	c := Case{Format: rapid.SampledFrom([]string{"yaml", "yaml", "json", "toml"}).Draw(rt, "format")}
@@ -154,8 +154,8 @@ func genCase(rt *rapid.T) Case {
 			if local {
 				st.Name = fmt.Sprintf("st%d", j)
 			}
-			// acyclic inclusion: pipeline i may include pipeline i+1, once
-			if j == 0 && i+1 < np && rapid.Bool().Draw(rt, "include") {
+			// acyclic inclusion: pipeline i may include pipeline i+1, also from several of its stages
+			if i+1 < np && rapid.IntRange(0, 3).Draw(rt, "include") < 2-min(j, 1) {
 				st.Pipe = fmt.Sprint("p", i+1)
 			} else {
 				st.Task = rapid.SampledFrom(c.Tasks).Draw(rt, "task")
@@ -232,6 +232,15 @@ func genCase(rt *rapid.T) Case {
 			c.Pipes[pi] = append(c.Pipes[pi], Stage{Name: "x", Task: c.Tasks[0]})
 		}
 		c.Pipes[pi][len(c.Pipes[pi])-1].Name = c.Pipes[pi][0].Name
+	case "dupstage":
+		// the same stage written twice: same name, same task or pipeline; the copy may add a dependency
+		cp := *st
+		cp.Deps = nil
+		if rapid.Bool().Draw(rt, "copy-depends") && len(c.Pipes[pi]) > 1 {
+			other := c.Pipes[pi][(si+1)%len(c.Pipes[pi])].Name
+			cp.Deps = []string{other}
+		}
+		c.Pipes[pi] = append(c.Pipes[pi], cp)
 	case "cycle1":
 		c.Pipes[pi] = append(c.Pipes[pi], Stage{Name: "next", Pipe: fmt.Sprint("p", pi)})
 		c.Pos = "inclusion-cycle"
